@@ -275,7 +275,8 @@ def build_py_machine(scn: Dict[str, Any]):
         # tracing switched on, output into the scratch directory (the trace itself is not read)
         trace_kw = {"perfetto_trace": True,
                     "trace_path": os.path.join(scratch_dir(), f"trace-{os.getpid()}.perfetto-trace")}
-    emu = PCE500Emulator(save_lcd_on_exit=False, keyboard_columns_active_high=bool(kb.get("active_high", True)), **trace_kw)
+    emu = PCE500Emulator(save_lcd_on_exit=False, keyboard_columns_active_high=bool(kb.get("active_high", True)), **trace_kw,
+                         **(scn.get("ctor") or {}))
     rom = bytearray(ROM_SIZE)
     rom[ROM_SIZE - 6:] = bytes(scn["prog"]["rom_tail"])
     emu.load_rom(bytes(rom))
@@ -384,7 +385,8 @@ def build_py_fresh(scn: Dict[str, Any]):
         # tracing switched on, output into the scratch directory (the trace itself is not read)
         trace_kw = {"perfetto_trace": True,
                     "trace_path": os.path.join(scratch_dir(), f"trace-{os.getpid()}.perfetto-trace")}
-    emu = PCE500Emulator(save_lcd_on_exit=False, keyboard_columns_active_high=bool(kb.get("active_high", True)), **trace_kw)
+    emu = PCE500Emulator(save_lcd_on_exit=False, keyboard_columns_active_high=bool(kb.get("active_high", True)), **trace_kw,
+                         **(scn.get("ctor") or {}))
     rom = bytearray(ROM_SIZE)
     rom[ROM_SIZE - 6:] = bytes(scn["prog"]["rom_tail"])
     emu.load_rom(bytes(rom))
